@@ -60,6 +60,19 @@ add("C06", "fault_enumeration",
     "Index prefixes are sampled, not every byte. The sealed data file is assumed complete (fsynced before rollover).",
     "fault enumeration over index-file states with a reference-model oracle", "§4 C06")
 
+add("C15", "exploration",
+    "Two case kinds. (1) Harness-owned schedule: pause hooks (H2) inside WriterSet::rollover stop the writer thread after the live-index swap, after the sealed segment is installed and at the end; at each stop the harness runs version/sequence queries, event lookups and full stream/partition scans for everything acknowledged so far. (2) Real-thread stress: appenders publish acknowledgements, readers snapshot the published set before each round and must observe at least it (read-after-ack) and never less than before (monotone), with 128 KiB segments so rollovers overlap reads.",
+    "Only the rollover window is schedule-owned; other interleavings are sampled by the OS scheduler. Oracles are sound under any interleaving.",
+    "property-based generation of histories + harness-owned schedule points (hook) + concurrent stress with interleaving-independent oracles", "§4 C15")
+add("C16", "exploration",
+    "4-16 concurrent client tasks race optimistic (read-then-Exact), Empty, Any and stale-Exact appends over shared streams on generated bucket/writer-thread configurations; the logged history must be explained by the serial order of assigned sequences (gapless, every expectation holds at its turn, versions as in the model), failures are only flagged when the log proves them unjustified, and the final database must pass the full audit against the replayed model.",
+    "Interleavings are sampled by the scheduler; the oracle is schedule-independent (linearisability-style check by assigned sequence).",
+    "concurrent property-based testing with a history-checking (serialisability) oracle", "§4 C16")
+add("C20", "exploration",
+    "Generated sync configurations (interval 0-50 ms, idle, batch, min-sync-bytes from tiny to huge) and 1-16 clients issuing small/large/multi-event/failing appends with rollovers; every append future must resolve within 20*max(interval, idle)+3 s, and a miss only counts when the future is still pending after a further full bound with no new traffic.",
+    "Bounded-liveness only (no proof of termination); healthy tmpfs disk; watchdog hits are inconclusive.",
+    "concurrent property-based testing with a bounded-wait (confirmed twice) oracle", "§4 C20")
+
 NOT_BUILT = {}
 ALL = ["C%02d" % i for i in range(1, 27)]
 for i in ALL:
